@@ -12,7 +12,7 @@ functions, every decode-reachable loop advances an iterator / the decoder's inpu
 a decoded number.
 """
 import json, os, re
-from engine.rules import (MustPass, is_derived, root_fn, calls_to, outcome, success_values)
+from engine.rules import (call_checked, MustPass, is_derived, root_fn, calls_to, outcome, success_values)
 from engine.sym import strip_deep, render, walk, short, strip
 from engine.callgraph import CallGraph
 from engine import absint
@@ -1471,12 +1471,117 @@ PROGRESS = [
 INFINITE_SOURCES = ("repeat_with", "repeat", "cycle", "from_fn", "successors")
 
 
+
+_ADV = {}
+_TAIL_OPS = ("index", "split_at", "split_first", "splitn", "split", "split_once", "split_off", "strip_prefix", "get", "next",
+             "rsplitn", "split_at_checked", "split_first_chunk", "trim_start", "trim_ascii_start", "advance")
+
+
+def callee_advances(f, fn, depth=0):
+    """A crate function that a loop relies on for its progress (`while let Some(x) = take_thing(input)?`) really moves its
+    input on: on every path to a return that lets the caller go on (not an error, not a bare `None` / `Ok(None)`) it
+      * assigns its `&mut &[u8]` cursor a tail of the cursor's own old value, or
+      * makes a consuming call (take_* / skip_* / read_* of bcder, quick-xml, std::io) on its `&mut` decoder / reader
+        parameter whose failure is honoured, or calls a crate function for which the same holds.
+    -> (ok, reason)."""
+    if fn in _ADV:
+        return _ADV[fn]
+    _ADV[fn] = (True, "recursion")
+    b = f.body(fn)
+    if b is None or depth > 6:
+        _ADV[fn] = (False, "no body")
+        return _ADV[fn]
+    oc = outcome(b)
+    sy = oc.sym
+    rets = oc.returns()
+    passing = set(oc.fail_blocks)
+    muts = [i for i in range(1, b.arg_count + 1) if (b.local_ty(i) or "").startswith("&mut ")]
+    mnames = {b.local_name(i) or "_%d" % i for i in muts}
+    if not muts:
+        _ADV[fn] = (False, "no &mut input parameter")
+        return _ADV[fn]
+    # (a) cursor stores
+    for bi, blk in enumerate(b.blocks):
+        if blk.get("cleanup"):
+            continue
+        for st in blk["stmts"]:
+            if st["s"] != "assign" or not st["pl"]["p"] or st["pl"]["p"][0][0] != "d" or len(st["pl"]["p"]) != 1:
+                continue
+            if st["pl"]["l"] not in muts or not re.match(r"^&mut &(mut )?(\[u8\]|str)$", b.local_ty(st["pl"]["l"]) or ""):
+                continue
+            v = strip_deep(sy.rvalue(st["rv"]))
+            pn = b.local_name(st["pl"]["l"]) or "_%d" % st["pl"]["l"]
+            own = any(x[0] == "param" and x[1] == pn for x in walk(v))
+            tail = any(x[0] == "call" and (x[3] or {}).get("name") in _TAIL_OPS for x in walk(v))
+            if own and tail and render(v) != pn:
+                passing.add(bi)
+    # (b) consuming calls on the decoder / reader parameter
+    for c in b.calls():
+        if b.is_cleanup(c.bb) or not c.is_static or not c.args:
+            continue
+        on_input = any(x[0] == "param" and x[1] in mnames for a in c.args for x in walk(strip_deep(sy.operand(a))))
+        if not on_input:
+            continue
+        hit = False
+        if c.res in f.bodies and "::{closure" not in (c.res or ""):
+            hit = callee_advances(f, c.res, depth + 1)[0]
+        elif c.krate in ("bcder", "quick_xml", "std", "core", "tokio") and \
+                re.match(r"^(take_|skip_|read|capture|fill_buf|consume|next$)", c.name or ""):
+            hit = True
+        if hit and (call_checked(b, c.bb, oc)[0] or c.dest is None):
+            passing.add(c.bb)
+    # (c) returns that end the caller's loop: a bare None / Ok(None)
+    for bi, blk in enumerate(b.blocks):
+        if blk.get("cleanup"):
+            continue
+        for st in blk["stmts"]:
+            if st["s"] == "assign" and st["pl"]["l"] == 0 and not st["pl"]["p"]:
+                r = render(strip_deep(sy.rvalue(st["rv"])))
+                if re.match(r"^(option::Option::None\{\}|result::Result::Ok\{0: option::Option::None\{\}\})$", r):
+                    passing.add(bi)
+    pth = b.path(0, rets, passing) if rets else None
+    if pth is None:
+        _ADV[fn] = (True, "every continuing path moves the input on")
+    else:
+        _ADV[fn] = (False, "a path returns success without moving the input on: lines %s" % [b.line_of(x) for x in pth][:12])
+    return _ADV[fn]
+
+
+def _every_round_passes(body, scc, blocks):
+    """every cycle inside the loop `scc` goes through one of `blocks` (no way round the loop avoids them)."""
+    rest = set(scc) - set(blocks)
+    # a cycle within `rest`?  (iterative DFS with colours)
+    colour = {}
+    for start in rest:
+        if start in colour:
+            continue
+        stack = [(start, iter([x for x in body.succs(start) if x in rest]))]
+        colour[start] = 1
+        while stack:
+            node, it = stack[-1]
+            nxt = next(it, None)
+            if nxt is None:
+                colour[node] = 2
+                stack.pop()
+                continue
+            if colour.get(nxt) == 1:
+                return False
+            if nxt not in colour:
+                colour[nxt] = 1
+                stack.append((nxt, iter([x for x in body.succs(nxt) if x in rest])))
+    return True
+
+
 def loop_progress(f, body, scc):
     """Name of the progress class of a loop (SCC of blocks), or None."""
     calls = [c for c in body.calls() if c.bb in scc and not body.is_cleanup(c.bb)]
     for name, pred in PROGRESS:
         for c in calls:
             if pred(c):
+                if name in ("decoder input", "xml element") and c.res in f.bodies and "::{closure" not in c.res:
+                    # a function of the crate: its name is not an argument — it has to move its input on
+                    if not callee_advances(f, c.res)[0]:
+                        continue
                 if name == "iterator":
                     # an endless source does not bound the loop by itself
                     src = render(strip_deep(K.sym_of(body).operand(c.args[0]))) if c.args else ""
@@ -1500,6 +1605,22 @@ def loop_progress(f, body, scc):
                     bl = i
         if bl is None or not any(d[0] in scc for d in body.defs().get(bl, [])):
             continue                          # the local is not re-assigned inside the loop
+        # the assignments that store the tail this call produces — they have to lie on every way round the loop
+        stores = set()
+        for d in body.defs().get(bl, []):
+            if d[0] not in scc:
+                continue
+            if d[2] == "call":
+                if d[0] == c.bb:
+                    stores.add(d[0])
+                continue
+            if d[2] in ("assign", "partial") and d[3].get("s") == "assign":
+                v = strip_deep(sy.rvalue(d[3]["rv"]))
+                if any(x[0] == "call" and len(x) > 3 and isinstance(x[3], dict) and x[3].get("bb") == c.bb and
+                       x[3].get("name") == c.name for x in walk(v)):
+                    stores.add(d[0])
+        if not stores or not _every_round_passes(body, scc, stores):
+            continue                          # … or only on some of the ways round it
         if c.name == "split_first":
             return "shrinking slice"
         arg = strip_deep(sy.operand(c.args[1])) if len(c.args) > 1 else None
